@@ -237,6 +237,21 @@ def contract_getitem():
     )
 
 
+def _to_case_plan(rm):
+    """replay inputs for the slices: the deterministic start of the stand-in's own plan (fixed seeds incl. 0, dither, several
+    utterances, manifest / no manifest, worker counts) - a slice obligation has no input of its own to offer"""
+    def to_case(ob):
+        import importlib
+        try:
+            mod = importlib.import_module(rm)
+            plan = list(mod._plan("quick", 0))
+            zero = [c for c in plan if c.get("seed") == 0 or c.get("cli_seed") == 0 or "seed0" in str(c) or "'seed': 0" in str(c)]
+            return (zero[:8] + [c for c in plan if c not in zero][:10])
+        except Exception:
+            return None
+    return to_case
+
+
 def units(prop):
     from contracts.registry import run_contract
     from pyvc.check import UnitResult
@@ -266,6 +281,7 @@ def units(prop):
                 u.canaries += ex.canaries
                 u.assumptions |= set(ex.assumption_ids)
             u.replay_module = rm
+            u.to_case = _to_case_plan(rm)
             return u
         unit.__name__ = name
         return unit
